@@ -649,6 +649,7 @@ def run_c08_full(ctx):
 def run_c10_full(ctx):
     results = simstream.run_stream(ctx.seed, ctx.n(128, 8000), "full", [ctx.pid])
     absorb_sim(ctx, results, "full")
+    _hp.run_c10_backward(ctx, ctx.n(40, 1500))
     n, fps = _hp.run_c10_removal(ctx, ctx.n(60, 3000))
     ctx.evaluations += n
     ctx.traces_validated += n
